@@ -1,0 +1,80 @@
+//go:build verif
+
+// Specification vocabulary for the govc verifier (see /verif/DESIGN.md). This file only exists
+// under the `verif` build tag; it adds no behaviour to the package. The v* functions are
+// intrinsics: the verifier gives them their logical meaning; their Go bodies make contracts
+// executable so that counterexamples can be replayed against the real code.
+package commit
+
+import "unsafe"
+
+// vAssumeFailed is raised at run time when a replayed input does not satisfy an assumption.
+type vAssumeFailed struct{}
+
+// vFailures collects failed assertions during a replay.
+var vFailures []string
+
+func vAssume(c bool) {
+	if !c {
+		panic(vAssumeFailed{})
+	}
+}
+
+func vAssert(label string, c bool) {
+	if !c {
+		vFailures = append(vFailures, label)
+	}
+}
+
+func vRequires(c bool)              { vAssume(c) }
+func vEnsures(label string, c bool) { vAssert(label, c) }
+func vModifies(ptrs ...any)         {}
+
+func vForall(lo, hi int, f func(i int) bool) bool {
+	for i := lo; i < hi; i++ {
+		if !f(i) {
+			return false
+		}
+	}
+	return true
+}
+
+// vSeparate reports that two byte slices do not share a backing array.
+func vSeparate(a, b []byte) bool {
+	if cap(a) == 0 || cap(b) == 0 {
+		return true
+	}
+	a, b = a[:cap(a)], b[:cap(b)]
+	pa, pb := uintptr(unsafe.Pointer(&a[0])), uintptr(unsafe.Pointer(&b[0]))
+	return pa+uintptr(len(a)) <= pb || pb+uintptr(len(b)) <= pa
+}
+
+func vNondet[T any]() (v T) { return }
+
+func vImplies(a, b bool) bool { return !a || b }
+
+// vInvariant, vBody and vStep structure loop contracts (see DESIGN 2.4).
+func vInvariant(c bool)           { vAssume(c) }
+func vBody()                      {}
+func vStep(label string, c bool)  { vAssert(label, c) }
+
+// VBuffer builds a buffer in an arbitrary state (bytes written so far, last offset, current block) for contracts of
+// other packages. Exists only under the verif tag.
+func VBuffer(buf []byte, last int32, chunk Chunk) *Buffer {
+	return &Buffer{buffer: buf, last: last, chunk: chunk}
+}
+
+// VReaderAt places a reader inside the run of b that starts at byte s: it has consumed the run up to byte pos and
+// carries the offset prev of the last operation it decoded.
+func VReaderAt(b *Buffer, s, pos int, prev int32) *Reader {
+	return &Reader{buffer: b.buffer[s:], last: pos - s, Offset: prev, start: prev, x0: uint32(s), x1: uint32(len(b.buffer)), parent: b}
+}
+
+// VLen is the number of bytes written to the buffer.
+func VLen(b *Buffer) int { return len(b.buffer) }
+
+// VAtEnd reports whether the reader has consumed its whole run.
+func VAtEnd(r *Reader) bool { return r.last == len(r.buffer) }
+
+// VSeparate reports that two byte slices do not share a backing array (exported form of vSeparate).
+func VSeparate(a, b []byte) bool { return vSeparate(a, b) }
